@@ -108,13 +108,25 @@ func VerifC14_Pair() {
 	}
 	verifAssert(pre == refPre, "C14/pair/isprefix-is-componentwise-equality")
 	// hashes
-	ha, hb := a.Hash(), b.Hash()
+	// component hashes are computed in between: all hashers come from one pool, and whatever a previous user left
+	// in a pooled hasher must not leak into the next hash
+	ha := a.Hash()
+	for _, c := range b {
+		verifAssert(c.Hash() == c.Hash(), "C14/pair/component-hash-is-a-function")
+	}
+	hb := b.Hash()
 	if eq {
 		verifAssert(ha == hb, "C14/pair/equal-names-hash-equally")
+	}
+	if len(a) > 0 {
+		_ = a[0].Hash()
 	}
 	ph := b.PrefixHash()
 	verifAssert(len(ph) == len(b)+1, "C14/pair/prefixhash-length")
 	for i := 0; i <= len(b); i++ {
+		if i < len(b) {
+			_ = b[i].Hash()
+		}
 		verifAssert(ph[i] == b[:i].Hash(), "C14/pair/prefixhash-i-is-hash-of-prefix")
 	}
 	if pre {
